@@ -18,8 +18,8 @@ the factor its wavelengths are multiplied by; a unitless value is kept -/
 def toWave (u : WUnit) (s : USpec) : USpec :=
   let k : Rat := waveTo s.wu u
   match s.vu with
-  | some f => { wave := s.wave.map (· * k), value := s.value.map (· / k), wu := u, vu := some f }
-  | none => { wave := s.wave.map (· * k), value := s.value, wu := u, vu := none }
+  | some f => { wave := s.wave.map (fun w => Gen.toStepWaveDensity w k), value := s.value.map (fun v => Gen.toStepValueDensity v k), wu := u, vu := some f }
+  | none => { wave := s.wave.map (fun w => Gen.toStepWaveUnitless w k), value := s.value.map Gen.toStepValueUnitless, wu := u, vu := none }
 
 /-- `Spectrum.to(g)` for a flux unit: conversion is done with the wavelength in metres and the density per metre,
 then brought back to the spectrum's wavelength unit; TypeError for a unitless spectrum -/
@@ -30,7 +30,7 @@ def toFlux (g : FUnit) (H C : Rat) (s : USpec) : Option USpec :=
     let km : Rat := waveTo s.wu .m
     let back : Rat := waveTo .m s.wu
     some { wave := s.wave,
-           value := List.zipWith (fun v w => fluxTo f g (v / km) (w * km) H C / back) s.value s.wave,
+           value := List.zipWith (fun v w => Gen.toStepFlux f g w v km back H C) s.value s.wave,
            wu := s.wu, vu := some g }
 
 /-- `Spectrum.to(*units)`: the arguments are applied left to right; a wavelength-unit name rescales (`toWave`), a flux-unit
